@@ -270,6 +270,11 @@ def _is_none(n):
     return isinstance(n, dict) and n.get("k") == "Adt" and n["adt"] == OPTION and n["variant"] == "None"
 
 
+def is_none_literal_(n):
+    n = strip(n)
+    return isinstance(n, dict) and n.get("k") == "Adt" and (n.get("adt") or "").endswith("option::Option") and n.get("variant") == "None"
+
+
 def closure_slots(facts, b):
     """(slots list | None, tracked-flags param var, why)"""
     stmts, tail = closure_tail(facts, b)
@@ -516,10 +521,40 @@ def r9_slot_arity_and_gate(facts):
             else:
                 c.unk(sinst, swhere, "slot %d has an unrecognised form: %s" % (i, show(s)[:120]))
         # early `return`s of the closure deliver slots as well: same arity, same gating
-        own_returns = [n for n in walk(facts.root(b)) if n.get("k") == "Return" and n.get("e") is not None]
-        for ri, rn in enumerate(own_returns):
+        own_returns = [(n, ctx_) for n, ctx_ in F.walk_ctx(facts.root(b)) if n.get("k") == "Return" and n.get("e") is not None]
+        for ri, (rn, rctx) in enumerate(own_returns):
             rinst = "%s#return%d" % (inst, ri)
             relems = vec_literal_elems(strip(rn["e"]))
+            # flags the guard of this return fixes: `!t[i]` / `t[i]` conjuncts on the path
+            known = {}
+
+            def learn_(cnd, truth):
+                cnd = strip(cnd)
+                if not isinstance(cnd, dict):
+                    return
+                if cnd.get("k") == "LogicalOp" and ((cnd["op"] == "And" and truth) or (cnd["op"] == "Or" and not truth)):
+                    learn_(cnd["l"], truth)
+                    learn_(cnd["r"], truth)
+                    return
+                if cnd.get("k") == "Unary" and cnd.get("op") == "Not":
+                    return learn_(cnd["e"], not truth)
+                if cnd.get("k") == "Call" and callee(cnd) == "core::ops::bit::Not::not" and cnd["args"]:
+                    return learn_(cnd["args"][0], not truth)
+                pe = peel(cnd)
+                base_, i_ = None, None
+                if isinstance(pe, dict) and pe.get("k") == "Index":
+                    base_, i_ = pe["e"], pe["i"]
+                elif isinstance(pe, dict) and pe.get("k") == "Call" and callee(pe) == "core::ops::index::Index::index" and len(pe["args"]) == 2:
+                    base_, i_ = pe["args"][0], pe["args"][1]
+                if base_ is not None and var_of(peel(base_)) == tvar and isinstance(lit_value(i_), int):
+                    known[lit_value(i_)] = truth
+            for cnd_, truth_ in F.path_facts(rctx):
+                learn_(cnd_, truth_)
+            if relems is None:
+                re_ = strip(rn["e"])
+                if isinstance(re_, dict) and re_.get("k") == "Call" and callee(re_) == "alloc::vec::from_elem" and len(re_["args"]) == 2 \
+                        and is_none_literal_(re_["args"][0]) and isinstance(lit_value(re_["args"][1]), int):
+                    relems = [re_["args"][0]] * lit_value(re_["args"][1])       # vec![None; n]
             if relems is None:
                 c.unk(rinst, loc(b, rn), "early return of a value that is not a slot vector literal: %s" % show(rn["e"])[:80])
                 continue
@@ -532,9 +567,11 @@ def r9_slot_arity_and_gate(facts):
                     continue
                 if form == "some" and len(slots) == 1 and single_operand_attach_only_if_tracked(facts, parent):
                     continue
+                if form == "none" and known.get(i) is False:
+                    continue        # the guard of the return says this operand is untracked
                 if form == "none":
-                    c.bad(rinst, loc(b, rn), "on an early return slot %d is None whatever its flag: a tracked operand %d then receives no adjoint on that path, "
-                          "its consumer counter is not decremented and it (and everything below it) is left out of this and later passes" % (i, i))
+                    c.bad(rinst, loc(b, rn), "on an early return slot %d is None although the guard of the return does not say that operand %d is untracked: a tracked operand %d then receives no adjoint "
+                          "on that path, its consumer counter is not decremented and it (and everything below it) is left out of this and later passes" % (i, i, i))
                 elif form in ("gated", "inverted"):
                     c.bad(rinst, loc(b, rn), "on an early return slot %d is gated on t[%s]%s" % (i, idx, " negated" if form == "inverted" else ""))
                 elif form == "some":
